@@ -458,6 +458,7 @@ impl Sim {
         let mut steps = 0;
         let mut last = String::new();
         let mut same = 0;
+        let mut same_total = 0;
         let mut waits = 0;
         loop {
             while let Some(name) = self.pump_one()? {
@@ -472,6 +473,7 @@ impl Sim {
                 // the wall clock moves on; move the virtual clock instead.
                 if name == last {
                     same += 1;
+                    same_total += 1;
                     if same >= 20 {
                         clock::advance(1);
                         same = 0;
@@ -479,6 +481,14 @@ impl Sim {
                 } else {
                     last = name;
                     same = 0;
+                    same_total = 0;
+                }
+                // one task that is taken again and again, hundreds of times in a row, with the clock
+                // moving on: it will not stop (found much sooner than by the overall bound)
+                if same_total >= 500 && !last.starts_with("update_rrdp_if_needed") {
+                    return Err(Fail::Violation(format!(
+                        "background work does not settle: no quiescence, task {last} was run {same_total} times in a row (after {steps} task steps)"
+                    )));
                 }
                 if steps >= max {
                     let tail: Vec<_> = self.w().task_trace.iter().rev().take(30).cloned().collect();
